@@ -471,3 +471,28 @@ have [H1 H2 _] := lanczos_projection_rcf Hrun Hstart hidx Hlin Hsym Hv HG.
 have HQ := lanczos_orthonormal_rcf Hrun Hstart hidx Hv HG.
 exact: arnoldi_residual_mx.
 Qed.
+
+(* at an early exit the beta of the classical form is at most the threshold *)
+Lemma sqrt_le_norm (F : rcfType) (x b : F) : x <= b ^+ 2 -> Num.sqrt x <= `|b|.
+Proof. by move=> H; rewrite -sqrtr_sqr; exact: ler_wsqrtr. Qed.
+
+Theorem lanczos_early_exit_beta_rcf (F : rcfType) (g : lz_args F) o nvec init :
+  lanczos_tridiag (ArR F) g = Ok o -> lz_start g = Ok (nvec, init) ->
+  let n := g_n g in let C := (prodn (g_batch g) * nvec)%N in let m := o_m o in
+  forall Am : nat -> 'M[F]_n,
+  (forall c X, (c < C)%N -> cv n (g_mm g X) c = Am c *m cv n X c) ->
+  (forall c, (c < C)%N -> (Am c)^T = Am c) ->
+  0 <= g_tol g -> (0 < g_extra g)%N ->
+  (forall c, (c < C)%N -> cv n init c != 0) ->
+  (forall idx, (idx < size (o_T o))%N -> forall j, (j.+1 < m)%N -> mget (ArR F) (nth [::] (o_T o) idx) j j.+1 != 0) ->
+  (m < minn (g_max_iter g) n)%N ->
+  forall idx, (idx < size (o_Q o))%N -> forall j : 'I_m, j.+1 = m ->
+    let c := col_of (prodn (g_batch g)) nvec idx in
+    let Qm := mx_of n m (nth [::] (o_Q o) idx) in let Tm := mx_of m m (nth [::] (o_T o) idx) in
+    let rho_ := col j (Am c *m Qm - Qm *m Tm) in
+    Num.sqrt (dotv rho_ rho_) <= `|g_brk g|.
+Proof.
+move=> Hrun Hstart /= Am Hlin Hsym Htol Hex Hv HG Hearly idx hidx j Ej.
+apply: sqrt_le_norm.
+exact: (lanczos_early_exit_rcf Hrun Hstart Hlin Hsym Htol Hex Hv HG Hearly hidx Ej).
+Qed.
